@@ -175,6 +175,11 @@ pub fn build(seed: u64) -> Built {
             Err(_) => {}
         }
     }
+    // two data items under one key on one annotation
+    if let Some(r) = rids.first() {
+        let b = AnnotationBuilder::new().with_id("two-values").with_target(SelectorBuilder::textselector(r.clone(), Offset::simple(0, 1))).with_data("s1", "k", "first").with_data("s1", "k", "second");
+        if store.annotate(b).is_ok() { desc.push("annotation two-values: data [s1|k|\"first\", s1|k|\"second\"]".to_string()); }
+    }
     Built { store, desc }
 }
 
@@ -268,14 +273,34 @@ pub fn check_store(rep: &mut Report, seed: u64) {
                 if extra != want_extra { rep.fail("oracle", &format!("C17/extra-target-differs/{}", target_kind), ctx(), &format!("{:?}", want_extra), &format!("{:?}", extra)); }
             }
             // ----- body and annotation-level properties
+            let pred_of = |d: &ResultItem<AnnotationData>| -> String {
+                let key = d.key();
+                let kid = key.id().unwrap_or("?");
+                let in_anno = matches!(d.set().id(), Some(ANNO_NS) | Some(ANNO_CTX));
+                let pred_full = if in_anno { kid.to_string() } else { into_iri(kid, &into_iri(d.set().id().unwrap_or("?"), &cfg.default_set_iri)) };
+                cfg.uri_to_namespace(&pred_full).to_string()
+            };
+            let all_preds: Vec<String> = a.data().map(|d| pred_of(&d)).collect();
+            let mut reported_dup = false;
             for d in a.data() {
                 let key = d.key();
                 let kid = key.id().unwrap_or("?");
                 let in_anno = matches!(d.set().id(), Some(ANNO_NS) | Some(ANNO_CTX));
                 let top = in_anno && matches!(kid, "generated" | "generator" | "motivation" | "created" | "creator");
-                let pred_full = if in_anno { kid.to_string() } else { into_iri(kid, &into_iri(d.set().id().unwrap_or("?"), &cfg.default_set_iri)) };
-                let pred = cfg.uri_to_namespace(&pred_full).to_string();
+                let pred = pred_of(&d);
                 let holder = if top { Some(&doc) } else { doc.get("body") };
+                // two data items under one predicate: both values must be there (as a JSON parser sees the document)
+                if all_preds.iter().filter(|p| **p == pred).count() > 1 {
+                    let vals: Vec<&DataValue> = a.data().filter(|x| pred_of(x) == pred).map(|x| x.value()).collect();
+                    let j = holder.and_then(|h| h.get(&pred));
+                    let holds = |v: &DataValue| match j { Some(serde_json::Value::Array(items)) => items.iter().any(|it| value_matches(v, it)) || value_matches(v, j.unwrap()), Some(x) => value_matches(v, x), None => false };
+                    rep.count("value:two-for-one-predicate");
+                    if !reported_dup && !vals.iter().all(|v| holds(v)) {
+                        reported_dup = true;
+                        rep.fail("oracle", "C17/two-values-for-one-predicate", ctx(), &format!("{} carries {:?}", pred, vals), &format!("{}", j.map(|x| x.to_string()).unwrap_or("nothing".into())));
+                    }
+                    continue;
+                }
                 let j = holder.and_then(|h| h.get(&pred));
                 rep.count(&format!("value:{}", value_class(d.value())));
                 match j {
